@@ -409,7 +409,8 @@ Definition dec_settings (x : sexp) : option settings :=
   match x with
   | SList [h; d; l] =>
       if sym_is "settings" h then
-        d' <-- as_N d ;;
+        (* `default`: the library's default limit (ParserSettings::default: 128) *)
+        d' <-- (if sym_is "default" d then Some 128%N else as_N d) ;;
         l' <-- (if sym_is "none" l then Some None else option_map Some (as_N l)) ;;
         Some {| st_max_depth := d'; st_star_limit := l' |}
       else None
